@@ -265,7 +265,13 @@ impl<T: Qcow2IoOps> Qcow2Dev<T> {
                 let buf = unsafe {
                     std::slice::from_raw_parts_mut(slice.as_mut_ptr(), slice.byte_size())
                 };
-                self.call_read(off, buf).await?;
+                if let Err(err) = self.call_read(off, buf).await {
+                    // the slice stays in the write map: it must not look
+                    // loaded, otherwise every later lookup of this key skips
+                    // the load and fails for good
+                    slice.set_offset(None);
+                    return Err(err);
+                }
                 log::trace!("add_cache_slice: load from disk");
             } else {
                 entry.set_dirty(true);
